@@ -1575,8 +1575,12 @@ public:
     /** Removes successor r from the list of successors.
         It also calls r.remove_predecessor(*this) to remove this node as a predecessor. */
     bool remove_successor( successor_type &r ) override {
-        // TODO revamp: investigate why full qualification is necessary here
-        tbb::detail::d2::remove_predecessor(r, *this);
+        // A sender of continue_msg leaves this to its successor cache (successor_cache<continue_msg>::remove_successor):
+        // a continue_node counts its predecessors and must be told exactly once that the edge is gone.
+        if (!std::is_same<T, continue_msg>::value) {
+            // TODO revamp: investigate why full qualification is necessary here
+            tbb::detail::d2::remove_predecessor(r, *this);
+        }
         buffer_operation op_data(rem_succ);
         op_data.r = &r;
         my_aggregator.execute(&op_data);
@@ -2318,8 +2322,12 @@ public:
     //! Removes a successor from this node
     /** r.remove_predecessor(*this) is also called. */
     bool remove_successor( successor_type &r ) override {
-        // TODO revamp: investigate why qualification is needed for remove_predecessor() call
-        tbb::detail::d2::remove_predecessor(r, *this);
+        // A sender of continue_msg leaves this to its successor cache (successor_cache<continue_msg>::remove_successor):
+        // a continue_node counts its predecessors and must be told exactly once that the edge is gone.
+        if (!std::is_same<T, continue_msg>::value) {
+            // TODO revamp: investigate why qualification is needed for remove_predecessor() call
+            tbb::detail::d2::remove_predecessor(r, *this);
+        }
         my_successors.remove_successor(r);
         return true;
     }
